@@ -124,10 +124,20 @@ func runC08(c c08Case) vh.Result {
 	var mu sync.Mutex
 	got := map[string][]string{} // id -> raw elements received
 	var garbage []string
+	peerEnd := "" // why the peer stopped reading, if it did
 	record := func(id, raw string) {
 		mu.Lock()
 		got[id] = append(got[id], raw)
 		mu.Unlock()
+	}
+	countLocked := func() int { // caller holds mu
+		n := 0
+		for id, l := range got {
+			if strings.HasPrefix(id, "g") {
+				n += len(l)
+			}
+		}
+		return n
 	}
 	count := func() int {
 		mu.Lock()
@@ -236,6 +246,9 @@ func runC08(c c08Case) vh.Result {
 					pc.Discard(30 * time.Second) // keep the socket flowing so that blocked senders return
 					return
 				default:
+					mu.Lock()
+					peerEnd = ev.Kind + " " + ev.Err
+					mu.Unlock()
 					return
 				}
 			}
@@ -337,15 +350,26 @@ func runC08(c c08Case) vh.Result {
 		res.Fail("panic-in-send", "%s: %v", desc, panics)
 		return res
 	}
-	okSends := 0
+	var okIDs []string // sends that reported success: these must arrive
 	for _, l := range results {
 		for _, s := range l {
 			if s.err == nil {
-				okSends++
+				okIDs = append(okIDs, s.id)
 			}
 		}
 	}
-	// wait until everything arrived, something unparsable arrived, or nothing new has arrived for a while
+	allOKArrived := func() bool {
+		mu.Lock()
+		defer mu.Unlock()
+		for _, id := range okIDs {
+			if len(got[id]) == 0 {
+				return false
+			}
+		}
+		return true
+	}
+	// wait until every stanza whose send succeeded has arrived, something unparsable arrived, or nothing new has arrived
+	// for a while (stanzas of sends that reported an error may arrive as well: they do not end the wait)
 	lastN, lastChange := -1, time.Now()
 	waitFor(vh.Margin(8*time.Second), func() bool {
 		mu.Lock()
@@ -355,7 +379,7 @@ func runC08(c c08Case) vh.Result {
 		if n != lastN {
 			lastN, lastChange = n, time.Now()
 		}
-		return bad || n >= okSends || time.Since(lastChange) > vh.Margin(700*time.Millisecond)
+		return bad || allOKArrived() || time.Since(lastChange) > vh.Margin(700*time.Millisecond)
 	})
 	time.Sleep(vh.Margin(15 * time.Millisecond))
 	mu.Lock()
@@ -380,7 +404,7 @@ func runC08(c c08Case) vh.Result {
 				// failed send, nothing arrived: consistent (not expected on a healthy connection)
 				res.Fail("send-error-on-healthy-connection", "%s: %s of %s returned %v", desc, s.kind, s.id, s.err)
 			case s.err == nil && len(recv) == 0:
-				res.Fail("t/sent-stanza-lost", "%s: %s of %s returned nil but the stanza never reached the peer (%d of %d arrived)", desc, s.kind, s.id, count(), total)
+				res.Fail("t/sent-stanza-lost", "%s: %s of %s returned nil but the stanza never reached the peer (%d of %d arrived; peer stopped reading: %q)", desc, s.kind, s.id, countLocked(), total, peerEnd)
 			case len(recv) > 1:
 				res.Fail("stanza-duplicated", "%s: %s arrived %d times", desc, s.id, len(recv))
 			case recv[0] != s.want:
